@@ -56,3 +56,17 @@ Print Assumptions C05_package_json_structural.
 Print Assumptions C05_json_covers_value.
 Print Assumptions C05_diag_range.
 Print Assumptions C05_go_mod_locations.
+
+(* Cargo.toml, coverage part: under the hypotheses of C04_cargo_toml every reported range is exactly the requirement
+   text - the bytes [start, end) of the document are the reported version, without the quotes *)
+From VL Require Import Spec.TomlDoc Proofs.TomlWalkProofs.
+Theorem C05_cargo_covers_value :
+  forall content root d pkgs,
+  denote_toml content root = Some d -> plain_toml content root = true -> cargo_shape_ok d = true -> cargo_known d = false ->
+  walk_cargo_toml content root = Some pkgs ->
+  forall p, In p pkgs -> slice content (p_start p) (p_end p) = Some (p_version p) /\ p_start p <= p_end p.
+Proof.
+  intros content root d pkgs H1 H2 H3 H4 W p Hin. destruct (cargo_toml_exact content root d H1 H2 H3 H4) as [q [E [_ F]]].
+  rewrite W in E. injection E as <-. rewrite Forall_forall in F. exact (F p Hin).
+Qed.
+Print Assumptions C05_cargo_covers_value.
